@@ -46,6 +46,8 @@ func configure(g *gen) {
 			{"methods", "[]string", "methods", tStrList},
 			{"handler", "HandlerFunc", "handler", T{"opaque", "Option Nat"}},
 			{"handlers", "HandlersChain", "handlers", T{"opaque", "List Nat"}},
+			{"matches", "[]string", "matches_", tStrList},
+			{"start", "string", "start", tStr},
 		}},
 	}
 	g.opaque["error"] = T{"opaque", "Bool"} // true = a non-nil error
@@ -161,6 +163,19 @@ func configure(g *gen) {
 		Exts: []Ext{{Callee: "combineHandlers", Value: "(%1 ++ %2)", T: T{"opaque", "List Nat"}}}})
 	add(FnSpec{Recv: "Router", Func: "Use", Lean: "Router.Use"})
 	add(FnSpec{Recv: "Route", Func: "Use", Lean: "Route.Use", UseStructs: []string{"Route"}})
+	// route.go: matchRegex — the compiled regexp is a parameter (what FindAllStringSubmatch answers)
+	add(FnSpec{Recv: "Route", Func: "matchRegex", Lean: "Route.matchRegex", UseStructs: []string{"Route"},
+		Extra: []string{"(findAll : Bytes → List (List Bytes))"},
+		Types: map[string]T{"rux.Params": {"opaque", "Option GoRt.KV"}, "[][]string": {"opaque", "List (List Bytes)"}},
+		Exts: []Ext{
+			{Callee: "$.regex.FindAllStringSubmatch", Value: "(findAll %1)", T: T{"opaque", "List (List Bytes)"}},
+			{Callee: "make(Params)", Value: "(some [])", T: T{"opaque", "Option GoRt.KV"}},
+			{Callee: "ps[]=", Stmts: []string{"ps := some (GoRt.kvSet (ps.getD []) %1 %2)"}},
+		}})
+	add(FnSpec{Recv: "Route", Func: "match", Lean: "Route.match_", UseStructs: []string{"Route"},
+		Extra: []string{"(findAll : Bytes → List (List Bytes))"},
+		Types: map[string]T{"rux.Params": {"opaque", "Option GoRt.KV"}},
+		Exts: []Ext{{Callee: "$.matchRegex", Stmts: []string{"let %t ← Gen.Route.matchRegex $ %1 findAll"}, Values: []string{"%t.1", "%t.2"}, Ts: []T{{"opaque", "Option GoRt.KV"}, tBool}, MayPanic: true}}})
 	add(FnSpec{Func: "isSupportedMethod", Lean: "isSupportedMethod"})
 	add(FnSpec{Recv: "Route", Func: "goodInfo", Lean: "Route.goodInfo", UseStructs: []string{"Route"},
 		Exts: []Ext{{Callee: "MethodsString", Value: "([] : Bytes)", T: tStr}}})
